@@ -787,7 +787,8 @@ class TableMachine:
         return (st.model.canon(), st.exc)
 
     def expandable(self, st):
-        return not st.diverged and st.model.width <= 12 and st.model.height <= 8
+        cw, ch = (12, 8) if st.doc is not None else (6, 6)  # sheets loaded from files start bigger
+        return not st.diverged and st.model.width <= cw and st.model.height <= ch
 
     def describe(self, st):
         return {"xml": st.table.serialize(), "model": st.model.rows, "ncols": st.model.ncols,
